@@ -30,15 +30,23 @@ package render
 //@ ensures nonnil: err != nil ==> result != nil
 //@ ensures cause: err != nil && !is(err, parser.Error) ==> result.Cause() == err
 //@ method RenderChildren
+//@ requires args: arg0 != nil
 //@ assigns *
+//@ ensures onlyw: forall(x, "Val", x != arg0 && x != wsink(arg0) && !newbuf(x) ==> wtotal(x) == old(wtotal(x)))
+//@ ensures tree: sameold("S$Val") && sameheap("F$render.trimWriter$w")
 //@ method RenderBlock
+//@ requires args: arg0 != nil && arg1 != nil
 //@ assigns *
+//@ ensures onlyw: forall(x, "Val", x != arg0 && x != wsink(arg0) && !newbuf(x) ==> wtotal(x) == old(wtotal(x)))
+//@ ensures tree: sameold("S$Val") && sameheap("F$render.trimWriter$w")
 //@ method InnerString
 //@ assigns *
 //@ ensures outputElsewhere: forall(x, "Val", !newbuf(x) ==> wtotal(x) == old(wtotal(x)))
+//@ ensures tree: sameold("S$Val") && sameheap("F$render.trimWriter$w")
 //@ method RenderFile
 //@ assigns *
 //@ ensures noOutput: forall(x, "Val", !newbuf(x) ==> wtotal(x) == old(wtotal(x)))
+//@ ensures tree: sameold("S$Val") && sameheap("F$render.trimWriter$w")
 //@ ensures one: result1 != nil ==> result0 == ""
 //@ method Evaluate
 //@ assigns nothing
@@ -57,12 +65,13 @@ package render
 //@ requires args: w != nil && ctx != nil
 //@ assigns *
 //@ ensures onlyw: forall(x, "Val", x != w && x != wsink(w) && !newbuf(x) ==> wtotal(x) == old(wtotal(x)))
+//@ ensures tree: sameold("S$Val") && sameheap("F$render.trimWriter$w")
 
 // ---- trimWriter (C13, C20, C05) ------------------------------------------------------
 // Abstract view: total(tw) = wtotal(tw.w) ++ tw.buf  (what the downstream writer has
 // accepted plus what is still buffered). A trimWriter never wraps another trimWriter.
 
-//@ typeinv render.trimWriter: self.w != nil && !is(self.w, *render.trimWriter)
+//@ typeinv render.trimWriter: self.w != nil && !is(self.w, *render.trimWriter) && wsink(box(self, *render.trimWriter)) == self.w
 
 //@ func (*render.trimWriter).TrimRight
 //@ props C13 C01
@@ -245,65 +254,76 @@ package render
 
 // ---- render tree (C05, C07, C13, C20) ------------------------------------------------
 // Every node renders only into the trimWriter it is given; an error is returned, located
-// (C07), and nothing panics (C20). total(w) = wtotal(w.w) ++ w.buf.
+// (C07), and nothing panics (C20). total(w) = wtotal(w.w) ++ w.buf. Rendering never
+// writes slices or trimWriter wiring that existed before the call (C03).
+
+//@ typeinv render.RawNode: true
+//@ typeinv render.TrimNode: true
+//@ typeinv render.SeqNode: forall(k, 0, len(self.Children), self.Children[k] != nil)
+//@ typeinv render.TagNode: self.renderer != nil
 
 //@ interface render.Node
 //@ method render
-//@ requires args: arg0 != nil
+//@ requires args: valid(arg0)
 //@ assigns *
-//@ ensures sink: arg0.w == old(arg0.w)
-//@ ensures onlyw: forall(x, "Val", x != arg0.w && !newbuf(x) ==> wtotal(x) == old(wtotal(x)))
+//@ ensures sink: valid(arg0) && arg0.w == old(arg0.w)
+//@ ensures onlyw: forall(x, "Val", x != arg0.w && x != box(arg0, *render.trimWriter) && !newbuf(x) ==> wtotal(x) == old(wtotal(x)))
+//@ ensures tree: sameold("S$Val") && sameheap("F$render.trimWriter$w")
 
 //@ func (*render.TextNode).render
 //@ props C05 C13 C20 C07 C01
 //@ panics nothing
-//@ assigns F$render.trimWriter$buf, F$render.trimWriter$trim, writer, alloc S$Int, alloc F$parser.sourceLocError$SourceLoc, alloc F$parser.sourceLocError$context, alloc F$parser.sourceLocError$message, alloc F$parser.sourceLocError$cause, alloc S$Val
-//@ requires args: w != nil
+//@ requires args: valid(w)
 //@ ghost werr Val = nil
 //@ at call WriteString #1 assert verbatim: arg1 == n.Source
 //@ at call WriteString #1: werr = result1
-//@ ensures verbatim: result == nil ==> cat(wtotal(w.w), w.buf) == cat(old(cat(wtotal(w.w), w.buf)), ite(old(w.trim), ltrim(n.Source), n.Source))
-//@ ensures reported: werr != nil ==> result != nil && result.Cause() == werr && result.LineNumber() == n.SourceLoc.LineNo && result.Path() == n.SourceLoc.Pathname
+//@ ensures verbatim: result == nil ==> cat(wtotal(w.w), w.buf) == cat(old(cat(wtotal(w.w), w.buf)), ite(old(w.trim), ltrim(old(n.Source)), old(n.Source)))
+//@ ensures reported: werr != nil ==> result != nil
+//@ ensures located: werr != nil && !is(werr, parser.Error) ==> result.Cause() == werr && result.LineNumber() == old(n.SourceLoc.LineNo) && result.Path() == old(n.SourceLoc.Pathname)
 //@ ensures ok: werr == nil ==> result == nil
 
 //@ func (*render.RawNode).render
 //@ props C05 C20 C01
 //@ panics nothing
-//@ requires args: w != nil
+//@ requires args: valid(w)
 //@ ghost count Int = 0
 //@ ghost werr Val = nil
 //@ at call WriteString #1 assert inOrder: arg1 == n.slices[count] && werr == nil
 //@ at call WriteString #1: count = count + 1
 //@ at call WriteString #1: werr = result1
-//@ loop 1 invariant progress: count == _i && werr == nil
-//@ ensures all: result == nil ==> count == len(n.slices)
-//@ ensures reported: werr != nil ==> result != nil && result.Cause() == werr
+//@ loop 1 invariant progress: count == _i && werr == nil && valid(w) && w.w == old(w.w)
+//@ loop 1 invariant onlyw: forall(x, "Val", x != w.w && x != box(w, *render.trimWriter) && !newbuf(x) ==> wtotal(x) == old(wtotal(x)))
+//@ loop 1 invariant tree: sameold("S$Val") && sameold("S$Str") && sameheap("F$render.trimWriter$w") && sameheap("F$render.RawNode$slices")
+//@ ensures all: result == nil ==> count == old(len(n.slices))
+//@ ensures reported: werr != nil ==> result != nil
 //@ ensures ok: werr == nil ==> result == nil
 
 //@ func (*render.TrimNode).render
 //@ props C13 C20 C01
 //@ panics nothing
-//@ requires args: w != nil
+//@ requires args: valid(w)
 //@ ghost lerr Val = nil
 //@ ghost left Int = 0
 //@ ghost right Int = 0
 //@ at call TrimLeft #1: left = left + 1
 //@ at call TrimLeft #1: lerr = result
 //@ at call TrimRight #1: right = right + 1
-//@ ensures direction: ite(n.TrimDirection == parser.Left, left == 1 && right == 0, left == 0 && right == 1)
-//@ ensures reported: lerr != nil ==> result != nil && result.Cause() == lerr
+//@ ensures direction: ite(old(n.TrimDirection) == parser.Left, left == 1 && right == 0, left == 0 && right == 1)
+//@ ensures reported: lerr != nil ==> result != nil
 //@ ensures ok: lerr == nil ==> result == nil
 
 //@ func (*render.SeqNode).render
 //@ props C05 C20 C07 C01
 //@ panics nothing
-//@ requires args: w != nil && forall(k, 0, len(n.Children), n.Children[k] != nil)
+//@ requires args: valid(w)
 //@ ghost count Int = 0
 //@ ghost cerr Val = nil
-//@ at call render #1 assert inOrder: cerr == nil
+//@ at call render #1 assert inOrder: cerr == nil && this == n.Children[count]
 //@ at call render #1: count = count + 1
 //@ at call render #1: cerr = result
-//@ loop 1 invariant progress: count == _i && cerr == nil && w.w == old(w.w)
+//@ loop 1 invariant progress: count == _i && cerr == nil && valid(w) && w.w == old(w.w)
+//@ loop 1 invariant onlyw: forall(x, "Val", x != w.w && x != box(w, *render.trimWriter) && !newbuf(x) ==> wtotal(x) == old(wtotal(x)))
+//@ loop 1 invariant tree: sameold("S$Val") && sameheap("F$render.trimWriter$w")
 //@ ensures all: result == nil ==> count == old(len(n.Children))
 //@ ensures firstError: cerr != nil ==> result == cerr
 //@ ensures ok: cerr == nil ==> result == nil
@@ -311,7 +331,7 @@ package render
 //@ func (*render.TagNode).render
 //@ props C07 C20 C01
 //@ panics nothing
-//@ requires args: w != nil && n.renderer != nil
+//@ requires args: valid(w)
 //@ ghost rerr Val = nil
 //@ at call renderer #1: rerr = result
 //@ ensures located: rerr != nil ==> result != nil
@@ -322,17 +342,19 @@ package render
 //@ func (render.nodeContext).RenderSequence
 //@ props C20 C05 C01
 //@ panics nothing
-//@ requires args: w != nil && forall(k, 0, len(seq), seq[k] != nil)
+//@ requires args: w != nil && (is(w, *render.trimWriter) ==> valid(as(w, *render.trimWriter))) && forall(k, 0, len(seq), seq[k] != nil)
 //@ ghost count Int = 0
 //@ ghost cerr Val = nil
 //@ ghost ferr Val = nil
-//@ at call render #1 assert inOrder: cerr == nil
+//@ at call render #1 assert inOrder: cerr == nil && this == seq[count]
 //@ at call render #1: count = count + 1
 //@ at call render #1: cerr = result
 //@ at call Flush #1: ferr = result1
-//@ loop 1 invariant progress: count == _i && cerr == nil && tw != nil && tw.w != nil && !is(tw.w, *render.trimWriter)
+//@ loop 1 invariant progress: count == _i && cerr == nil && valid(tw)
+//@ loop 1 invariant tree: sameold("S$Val") && forall(k, 0, len(seq), seq[k] != nil)
+//@ ensures all: result == nil ==> count == len(seq)
 //@ ensures firstError: cerr != nil ==> result == cerr
-//@ ensures flushError: ferr != nil ==> result != nil && result.Cause() == ferr
+//@ ensures flushError: ferr != nil ==> result != nil
 //@ ensures ok: cerr == nil && ferr == nil ==> result == nil
 
 //@ func render.Render
@@ -344,5 +366,5 @@ package render
 //@ at call render #1: nerr = result
 //@ at call Flush #1: ferr = result1
 //@ ensures nodeError: nerr != nil ==> result == nerr
-//@ ensures flushError: ferr != nil ==> result != nil && result.Cause() == ferr
+//@ ensures flushError: ferr != nil ==> result != nil
 //@ ensures ok: nerr == nil && ferr == nil ==> result == nil
